@@ -222,7 +222,7 @@ func (grid *RegularGrid) IntersectQuad(r Ray) (*Quad, float32) {
 
 		// clamp to bounds
 		cellX = (uint)(math.Min((float64)(cellX), (float64)(len(grid.Grid[0])-1)))
-		cellX = (uint)(math.Min((float64)(cellY), (float64)(len(grid.Grid)-1)))
+		cellY = (uint)(math.Min((float64)(cellY), (float64)(len(grid.Grid)-1)))
 
 		tMin := (float32)(math.Inf(1))
 		var resultQuad *Quad
